@@ -495,7 +495,7 @@ fn kind_of(name: &str) -> &'static str {
 }
 
 pub fn generate(rng: &mut Rng, tier: Tier, emit: &mut dyn FnMut(String)) {
-    let per = if tier == Tier::Quick { 60 } else { 1200 };
+    let per = if tier == Tier::Quick { 250 } else { 3000 };
     let names: Vec<&str> = FULL.iter().chain(HASHED).chain(SER_ONLY).copied().collect();
     for name in &names {
         let mut done = 0;
